@@ -57,6 +57,20 @@ class SymArr:
             return SymArr([_flat(self.data)])
         if a in ((-1,), ((-1,),)):
             return SymArr(_flat(self.data))
+        if len(a) == 1 and isinstance(a[0], (tuple, list)):
+            a = tuple(a[0])
+        if len(a) == 2 and all(isinstance(k, int) for k in a):
+            flat = _flat(self.data)
+            r, c = a
+            if r == -1 and c > 0 and len(flat) % c == 0:
+                r = len(flat) // c
+            if c == -1 and r > 0 and len(flat) % r == 0:
+                c = len(flat) // r
+            if r * c != len(flat):
+                e = ValueError("cannot reshape array of size %d into shape %r" % (len(flat), (r, c)))  # as numpy does
+                e._contract_model = True
+                raise e
+            return SymArr([flat[j * c:(j + 1) * c] for j in range(r)])
         raise TypeError("SymArr.reshape%r not modelled" % (a,))
 
     def tolist(self):
@@ -218,6 +232,8 @@ class NumpyShim:
         return SymBool(zabs(x - y) <= _t(atol) + mk_mul(_t(rtol), zabs(y)))
 
     def any(self, x, *a, **kw):
+        if isinstance(x, SymArr) and not _has_sym(x):
+            x = x.data
         if _has_sym(x):
             ts = [b.t if isinstance(b, SymBool) else z3.BoolVal(bool(b)) for b in _flat(x)]
             return SymBool(z3.Or(*ts)) if ts else False
@@ -229,7 +245,23 @@ class NumpyShim:
     def isnan(self, x):
         if isinstance(x, SymReal):
             return False
+        if isinstance(x, SymArr) or _has_sym(x):  # a real is never NaN / infinite (floats are modelled as reals)
+            return SymArr([self.isnan(e) for e in list(x)])
         return _np.isnan(x)
+
+    def isfinite(self, x):
+        if isinstance(x, SymReal):
+            return True
+        if isinstance(x, SymArr) or _has_sym(x):
+            return SymArr([self.isfinite(e) for e in list(x)])
+        return _np.isfinite(x)
+
+    def isinf(self, x):
+        if isinstance(x, SymReal):
+            return False
+        if isinstance(x, SymArr) or _has_sym(x):
+            return SymArr([self.isinf(e) for e in list(x)])
+        return _np.isinf(x)
 
     # containers
     def zeros(self, n, *a, **kw):
@@ -274,6 +306,8 @@ class NumpyShim:
         return _np.diff(x, *a, **kw)
 
     def all(self, x, *a, **kw):
+        if isinstance(x, SymArr) and not _has_sym(x):
+            x = x.data
         if _has_sym(x):
             return _conj(x)
         return _np.all(x, *a, **kw)
